@@ -104,8 +104,12 @@ def fault_enumeration(c, rng, wd, per_case):
             for kind in ('Exception', 'BaseException'):
                 inj = inject.Injector(target=k, kind=kind)
                 out = run_once(mod, path, base, case, inj)
+                leaked = inject.leaked_locks()
                 if inj.skipped or inj.section is None:
                     continue
+                if leaked:
+                    out = dict(out, escaped=True, error='lock(s) %s left held: the next hit would block the application'
+                               % leaked)
                 traces.append([{'case': case[0]}, {'section': inj.section, 'kind': kind},
                                {'escaped': out['escaped'], 'returned': out['returned']}])
                 meta.append({'case': case[0], 'site': inj.site, 'k': k, 'kind': kind, 'section': inj.section,
@@ -151,6 +155,71 @@ def plugin_faults(c, wd):
                 meta.append({'case': name, 'site': 'plugin.' + cb, 'kind': kind, 'section': sec, 'outcome': out})
     sys.modules.pop(mod.__name__, None)
     return traces, meta
+
+
+PROBE_HOST = '''
+SEEN = []
+
+
+def probe(tag):
+    SEEN.append((tag, HELD()))
+    return 7
+
+
+class Probed:
+    def __str__(self):
+        SEEN.append(('__str__', HELD()))
+        return 'probed'
+
+
+def work(n):
+    p = Probed()
+    q = [Probed(), n]
+    return n + 1  # TP:work
+'''
+
+
+def lock_probe_leg(c, wd):
+    """While application code runs on behalf of the agent (str() of a local, an expression, a plugin callback) the
+    agent must not hold one of its own locks: the application may need a lock that another thread holds while that
+    thread is waiting for the agent (a deadlock the host program does not have on its own)."""
+    from deepproto.proto.tracepoint.v1.tracepoint_pb2 import Metric, MetricType, LabelExpression
+    mod, path, marks = R.write_host(wd, PROBE_HOST)
+    mod.HELD = inject.held_locks
+    base = path.rsplit('/', 1)[-1]
+    plugin = R.role_plugin('rec', {'log', 'metric', 'span', 'decorate'})
+    plugin.on_record = lambda p, kind, a: mod.SEEN.append(('plugin.' + kind, inject.held_locks()))
+    rg = R.Rig(plugins=[plugin])
+    try:
+        inf = {'fire_count': '-1', 'fire_period': '0'}
+        rg.install([
+            dict(id='t1', path=base, line=marks['work'], args=dict(inf, log_msg='v={probe("log")}', condition='probe("cond") == 7'),
+                 watches=['probe("watch")', 'p']),
+            dict(id='t2', path=base, line=marks['work'], args=dict(inf, snapshot='no_collect', span='line'),
+                 metrics=[Metric(name='m', type=MetricType.COUNTER, expression='probe("metric")',
+                                 labelExpressions=[LabelExpression(key='k', expression='probe("label")')])]),
+        ])
+        res = rg.run(mod.work, 1, only_file=path)
+        c.traces_validated += 1
+        c.note_case(key=('lock-probe',), nontrivial=True)
+        bad = [(tag, held) for tag, held in mod.SEEN if held]
+        tags = {t for t, _ in mod.SEEN}
+        need = {'__str__', 'cond', 'watch', 'log', 'metric', 'label', 'plugin.decorate', 'plugin.log', 'plugin.metric',
+                'plugin.open'}
+        if res != ('ok', 2) or rg.escaped:
+            c.violation('lock probe: host changed / handler raised %r %r' % (res, rg.escaped),
+                        c.save_replay({'kind': 'lock-probe', 'res': repr(res)}))
+        elif not need <= tags:
+            raise tlc.MachineryError('lock probe did not reach application code for %s' % sorted(need - tags))
+        elif bad:
+            c.violation('the agent holds its lock %s while application code runs (%s): a host thread that holds a lock '
+                        'this code needs and reaches a tracepoint would deadlock' % (bad[0][1], bad[0][0]),
+                        c.save_replay({'kind': 'lock-probe', 'held': bad[:5]}))
+    finally:
+        rg.close()
+        sys.modules.pop(mod.__name__, None)
+        import threading
+        getattr(type(rg.handler._callbacks), '_ThreadLocal__store', {}).pop(threading.get_ident(), None)
 
 
 def validate(c, traces, meta, kind):
@@ -202,6 +271,7 @@ def run(c):
     validate(c, traces, meta, 'injected-line')
     traces, meta = plugin_faults(c, wd)
     validate(c, traces, meta, 'plugin-callback')
+    lock_probe_leg(c, wd)
     traces, meta = c03.run_scenarios(c, rng, wd, 40 if quick else 1000, 0.5, 'differential', 'd')
     c03.validate(c, traces, meta, lambda m: m['firings'] >= 3)
 
